@@ -45,7 +45,8 @@ Print Assumptions C05_exclude_order.
    every history, every outcome, both methods, with and without status and generates. *)
 Theorem C05_idempotent_and_detects :
   forall (matchb : string -> path -> bool) (H : string -> string) (Hx : fpr -> string) (v : variant),
-    v_safe v = true -> v_fp_exact v = true -> v_ts_exact v = true -> v_listjson_dry v = true -> v_force_records v = true ->
+    v_safe v = true -> v_fp_exact v = true -> v_ts_exact v = true -> v_listjson_dry v = true ->
+    v_dry_fail_guard v = true -> v_force_records v = true ->
     (forall a b, Hx a = Hx b -> a = b) ->
     forall (p : project) (s : state) (h : list event),
       wf_proj p -> empty_store s ->
